@@ -241,59 +241,115 @@ Theorem grid_distortion_invalid_type (ty fty : string) x_ref y_ref maxf (Hx Hy x
   k_grid_distortion ROps y_ref x_ref ty fty Hx Hy maxf xr yr = None.
 Proof. intros H1 H2. unfold k_grid_distortion. rewrite H1, H2. reflexivity. Qed.
 
+Lemma lmap2_nil_r (f : R -> R -> R) (a : list R) : lmap2 (O := ROps) f a [] = [].
+Proof. destruct a; reflexivity. Qed.
+
+Lemma lmask_nil_l (m : list bool) : lmask (O := ROps) [] m = [].
+Proof. destruct m; reflexivity. Qed.
+
 Lemma lmask_div100 (d r : list R) (m : list bool) :
   lmap2 (O := ROps) Rdiv (lmap (O := ROps) (fun v => 100 * v) (lmask (O := ROps) d m)) (lmask (O := ROps) r m)
   = lmask (O := ROps) (lmap2 (O := ROps) Rdiv (lmap (O := ROps) (fun v => 100 * v) d) r) m.
 Proof.
-  unfold lmap. revert r m; induction d as [|x d IH]; intros [|y r] [|b m]; cbn; try reflexivity.
-  - destruct b; reflexivity.
-  - destruct b; cbn; [f_equal|]; apply IH.
+  unfold lmap. revert r m; induction d as [|x d IH]; intros r m.
+  - reflexivity.
+  - destruct r as [|y r].
+    + change (lmask (O := ROps) [] m) with (@nil R). rewrite lmap2_nil_r. reflexivity.
+    + destruct m as [|b m]; [reflexivity|]. cbn [lmask map lmap2].
+      destruct b; cbn [map lmap2 lmask]; [f_equal|]; apply IH.
 Qed.
 
-(** object-height fields: the predicted grid is the traced scale per axis times the field (no mirroring, no tangent);
-    the reported maximum is the largest relative departure over the grid points OFF the axis (predicted radius above
-    1e-9 of the largest one), so a grid point on the axis no longer produces 0/0 *)
+Lemma lmask_nonempty (l : list R) (m : list bool) :
+  List.length l = List.length m -> existsb (fun b => b) m = true -> lmask (O := ROps) l m <> [].
+Proof.
+  revert m; induction l as [|x l IH]; intros [|b m] Hl He; cbn in *; try discriminate.
+  destruct b; [discriminate|]. apply IH; [lia|exact He].
+Qed.
+
+(** what every branch of GridDistortion._generate_data does after the predicted grid (xp, yp) is known *)
+Definition grid_tail (xp yp xr yr : list R) : R :=
+  let delta := lmap (O := ROps) sqrt (lmap2 (O := ROps) Rplus (lmap (O := ROps) (fun v => v * v) (lmap2 (O := ROps) Rminus xp xr))
+                                                                   (lmap (O := ROps) (fun v => v * v) (lmap2 (O := ROps) Rminus yp yr))) in
+  let rp := lmap (O := ROps) sqrt (lmap2 (O := ROps) Rplus (lmap (O := ROps) (fun v => v * v) xp) (lmap (O := ROps) (fun v => v * v) yp)) in
+  let c := Rlit 1 (-9) * max_list (O := ROps) rp in
+  let off := map (fun v => Rltb c v) rp in
+  if existsb (fun b => b) off
+  then max_list (O := ROps) (lmap2 (O := ROps) Rdiv (lmap (O := ROps) (fun v => 100 * v) (lmask (O := ROps) delta off)) (lmask (O := ROps) rp off))
+  else 0.
+
+(** the reported maximum is the largest relative departure over the grid points OFF the axis (predicted radius above
+    1e-9 of the largest one): a grid point on the axis no longer produces 0/0 *)
+Theorem grid_tail_spec (xp yp xr yr : list R) :
+  List.length yp = List.length xp -> List.length xr = List.length xp -> List.length yr = List.length xp ->
+  exists rel rp off,
+    List.length rel = List.length xp /\ List.length rp = List.length xp /\
+    off = map (fun r => Rltb (Rlit 1 (-9) * max_list (O := ROps) rp) r) rp /\
+    (forall i, (i < List.length xp)%nat ->
+       nth i rp 0 = sqrt (nth i xp 0 * nth i xp 0 + nth i yp 0 * nth i yp 0) /\
+       nth i rel 0 = 100 * sqrt ((nth i xp 0 - nth i xr 0) * (nth i xp 0 - nth i xr 0) +
+                                 (nth i yp 0 - nth i yr 0) * (nth i yp 0 - nth i yr 0)) / nth i rp 0) /\
+    (existsb (fun b => b) off = true -> is_max (lmask (O := ROps) rel off) (grid_tail xp yp xr yr)).
+Proof.
+  intros L1 L2 L3. unfold grid_tail. cbv zeta.
+  set (delta := lmap (O := ROps) sqrt (lmap2 (O := ROps) Rplus (lmap (O := ROps) (fun v => v * v) (lmap2 (O := ROps) Rminus xp xr))
+                                                                   (lmap (O := ROps) (fun v => v * v) (lmap2 (O := ROps) Rminus yp yr)))).
+  set (rp := lmap (O := ROps) sqrt (lmap2 (O := ROps) Rplus (lmap (O := ROps) (fun v => v * v) xp) (lmap (O := ROps) (fun v => v * v) yp))).
+  set (off := map (fun v => Rltb (Rlit 1 (-9) * max_list (O := ROps) rp) v) rp).
+  assert (Hd : List.length delta = List.length xp) by (unfold delta; len_side).
+  assert (Hr : List.length rp = List.length xp) by (unfold rp; len_side).
+  exists (lmap2 (O := ROps) Rdiv (lmap (O := ROps) (fun v => 100 * v) delta) rp), rp, off.
+  split; [rewrite lmap2_length, lmap_length, Hd, Hr; lia|]. split; [exact Hr|]. split; [reflexivity|]. split.
+  - intros i Hi. split.
+    + unfold rp. nth_maps. reflexivity.
+    + rewrite (lmap2_nth _ _ _ _ 0 0 0) by (rewrite ?lmap_length, ?Hd, ?Hr; lia).
+      rewrite (lmap_nth _ _ _ 0 0) by (rewrite Hd; lia).
+      unfold delta. nth_maps. reflexivity.
+  - intros Hex. rewrite Hex, lmask_div100. apply max_list_is_max. apply lmask_nonempty; [|exact Hex].
+    unfold off. rewrite map_length, lmap2_length, lmap_length, Hd, Hr. cbn [T ROps] in *. lia.
+Qed.
+
+(** object-height fields: the predicted grid is the traced scale per axis times the field (no mirroring, no tangent) *)
 Theorem grid_distortion_height_spec (ty : string) x_ref y_ref maxf (Hx Hy xr yr : list R) :
   orb (String.eqb ty "f-tan") (String.eqb ty "f-theta") = true ->
   let tiny := Rlit 1 (-10) in
-  exists xp yp m,
-    k_grid_distortion ROps y_ref x_ref ty "object_height" Hx Hy maxf xr yr = Some (xr, yr, xp, yp, m) /\
-    xp = map (fun h => x_ref / tiny * h) Hx /\ yp = map (fun h => y_ref / tiny * h) Hy /\
-    (List.length Hx = List.length Hy -> List.length xr = List.length Hx -> List.length yr = List.length Hx ->
-     exists rel rp off,
-       List.length rel = List.length Hx /\ List.length rp = List.length Hx /\
-       off = map (fun r => Rltb (Rlit 1 (-9) * max_list (O := ROps) rp) r) rp /\
-       (forall i, (i < List.length Hx)%nat ->
-          nth i rp 0 = sqrt (nth i xp 0 * nth i xp 0 + nth i yp 0 * nth i yp 0) /\
-          nth i rel 0 = 100 * sqrt ((nth i xp 0 - nth i xr 0) * (nth i xp 0 - nth i xr 0) +
-                                    (nth i yp 0 - nth i yr 0) * (nth i yp 0 - nth i yr 0)) / nth i rp 0) /\
-       (existsb (fun b => b) off = true -> is_max (lmask (O := ROps) rel off) m)).
+  let xp := map (fun h => x_ref / tiny * h) Hx in
+  let yp := map (fun h => y_ref / tiny * h) Hy in
+  k_grid_distortion ROps y_ref x_ref ty "object_height" Hx Hy maxf xr yr = Some (xr, yr, xp, yp, grid_tail xp yp xr yr).
 Proof.
-  intros Hty tiny. unfold k_grid_distortion. rewrite Hty. cbn [negb]. cbv iota.
-  cbn [String.eqb Ascii.eqb Bool.eqb]. cbv zeta beta iota.
-  do 3 eexists. split; [reflexivity|]. rops.
-  split; [reflexivity|]. split; [reflexivity|].
-  intros L1 L2 L3.
-  match goal with |- context [lmask (O := ROps) ?d ?o] =>
-    match goal with |- context [lmask (O := ROps) ?r o] =>
-      lazymatch r with
-      | d => fail
-      | _ => exists (lmap2 (O := ROps) Rdiv (lmap (O := ROps) (fun v => 100 * v) d) r), r, o
-      end
-    end
-  end.
-  split; [len_side|]. split; [len_side|]. split; [reflexivity|]. split.
-  - intros i Hi. split; nth_maps; reflexivity.
-  - intros Hex. unfold gtb_ in *. rops. rewrite Hex. rewrite lmask_div100.
-    apply max_list_is_max. intros E.
-    match type of Hex with existsb _ ?o = true => assert (Ho : exists b, In b o /\ b = true) by (apply existsb_exists in Hex; exact Hex) end.
-    clear Hex. revert E Ho.
-    match goal with |- lmask (O := ROps) ?rel ?o = [] -> _ => generalize rel o end.
-    intros rel0 o0 E [b [Hb ->]].
-    assert (Hl : List.length rel0 = List.length o0 -> False); [|].
-    2: { apply Hl. admit. }
-    admit.
-Admitted.
+  intros Hty tiny xp yp. unfold k_grid_distortion. rewrite Hty. reflexivity.
+Qed.
+
+(** angle fields, f-theta: linear in the field angle, scale per axis from the traced reference rays (the mirrored x of
+    angle fields is in the sign of x_ref; nothing is flipped by hand) *)
+Theorem grid_distortion_ftheta_spec (fty : string) x_ref y_ref maxf (Hx Hy xr yr : list R) :
+  String.eqb fty "object_height" = false ->
+  let theta := maxf * PI / 180 in
+  let xp := map (fun h => x_ref / (Rlit 1 (-10) * theta) * h * theta) Hx in
+  let yp := map (fun h => y_ref / (Rlit 1 (-10) * theta) * h * theta) Hy in
+  k_grid_distortion ROps y_ref x_ref "f-theta" fty Hx Hy maxf xr yr = Some (xr, yr, xp, yp, grid_tail xp yp xr yr).
+Proof.
+  intros Hf theta xp yp.
+  assert (Ex : xp = lmap (O := ROps) (fun v => v * theta) (lmap (O := ROps) (fun v => x_ref / (Rlit 1 (-10) * theta) * v) Hx))
+    by (unfold xp, lmap; rewrite map_map; reflexivity).
+  assert (Ey : yp = lmap (O := ROps) (fun v => v * theta) (lmap (O := ROps) (fun v => y_ref / (Rlit 1 (-10) * theta) * v) Hy))
+    by (unfold yp, lmap; rewrite map_map; reflexivity).
+  rewrite Ex, Ey. unfold k_grid_distortion. rewrite Hf. reflexivity.
+Qed.
+
+Theorem grid_distortion_ftan_spec (fty : string) x_ref y_ref maxf (Hx Hy xr yr : list R) :
+  String.eqb fty "object_height" = false ->
+  let theta := maxf * PI / 180 in
+  let xp := map (fun h => x_ref / tan (Rlit 1 (-10) * theta) * tan (h * theta)) Hx in
+  let yp := map (fun h => y_ref / tan (Rlit 1 (-10) * theta) * tan (h * theta)) Hy in
+  k_grid_distortion ROps y_ref x_ref "f-tan" fty Hx Hy maxf xr yr = Some (xr, yr, xp, yp, grid_tail xp yp xr yr).
+Proof.
+  intros Hf theta xp yp.
+  assert (Ex : xp = lmap (O := ROps) (fun v => x_ref / tan (Rlit 1 (-10) * theta) * v) (lmap (O := ROps) tan (lmap (O := ROps) (fun v => v * theta) Hx)))
+    by (unfold xp, lmap; rewrite !map_map; reflexivity).
+  assert (Ey : yp = lmap (O := ROps) (fun v => y_ref / tan (Rlit 1 (-10) * theta) * v) (lmap (O := ROps) tan (lmap (O := ROps) (fun v => v * theta) Hy)))
+    by (unfold yp, lmap; rewrite !map_map; reflexivity).
+  rewrite Ex, Ey. unfold k_grid_distortion. rewrite Hf. reflexivity.
+Qed.
 
 (** ** Field curvature: crossing of a pair of parabasal rays *)
 Lemma parabasal_crossing (p1 z1 d1 n1 p2 z2 d2 n2 : R) :
